@@ -34,6 +34,30 @@ EXPECTED_MISS = {
 }
 
 
+# behaviour-preserving micro-edits (selftest/micro/) on which a rule stops with an ANALYSIS-ERROR (exit 2) instead of staying silent:
+# the edit replaces the very construct the rule is anchored in by another algorithm or another API form
+MICRO_UNDECIDED = {
+    "C04-mic-6": "INJ-5: indent() rewritten from split/join to str.replace - the anchor (the split) is gone",
+    "C09-mic2-7": "COVER-1: the datetime types are registered through the decorator form registry.add()(cls) - the registrations are not counted",
+    "C09-mic2-10": "REGDELIV-1: remove_by_name is called through a local alias of the bound method",
+    "C14-mic3-8": "REGDELIV-1: remove_by_name is called through a local alias of the bound method",
+    "C12-mic3-4": "LAY-4: the set of parents is built by a loop of add() instead of a comprehension - the instance is not counted",
+    "C14-mic3-10": "CACHE-1/2: the cache is written through __setitem__ - the store is not recognised",
+    "C17-mic3-1": "LOAD-2: the loop over process_path(...) runs over enumerate(..., 1) - the anchor is not found",
+    "C11-mic3-9": "SIB-2: pydantic's alias is attached in one arm of a conditional expression",
+}
+# behaviour-preserving micro-edits of the third round (written to be hard for a tool that works on the syntax tree) on which a
+# recogniser still prints a VIOLATION: the false alarms that are left, each with the respelling that causes it (DESIGN.md 10.7)
+MICRO_FALSE_ALARMS = {
+    "C01-mic3-3": "NF-1/2/3: `len(united := field.type) == 1` - the size test goes through a local that holds the property's value",
+    "C04-mic3-1": "LAY-2: `self.BODY.render(data)` instead of `render(**data)` (jinja2 builds the same context)",
+    "C05-mic3-2": "CMP-2: `ge(len(a & b), n)` with `from operator import ge` instead of `len(a & b) >= n`",
+    "C09-mic3-2": "DET-3: the pairs are purged with one `difference_update([...])` instead of a loop of remove()",
+    "C09-mic3-7": "DATE-1: the two parses with different defaults are one comprehension over the pair of defaults",
+    "C15-mic3-9": "TOK-1: `label + '#' + path if path else label` - the separator sits in one arm of a conditional expression",
+}
+
+
 def _copy_repo(dst: str):
     for item in ("json_to_models", "pyproject.toml", "testing_tools", "test"):
         src = os.path.join(REPO, item)
@@ -91,17 +115,23 @@ def battery(only=None, jobs=16, refactorings=True):
     for pf in sorted(glob.glob(os.path.join(HERE, "twins", "*.diff"))):
         name = os.path.basename(pf)[:-5]
         tasks.append(("twin", name, pf, [only] if only else all_props))
+    for d in sorted(glob.glob(os.path.join(HERE, "micro", "*"))) if refactorings else []:
+        pf = os.path.join(d, "patch.diff")
+        if os.path.isfile(pf):
+            tasks.append(("micro", os.path.basename(d), pf, [only] if only else all_props))
     if refactorings:
         for d in sorted(glob.glob(os.path.join(HERE, "refactorings", "*"))):
             pf = os.path.join(d, "patch.diff")
             if os.path.isfile(pf):
                 tasks.append(("refactoring", os.path.basename(d), pf, [only] if only else all_props))
-    res = {"seeded": {}, "twins": {}, "refactorings": {}, "failed": [], "inapplicable": []}
+    res = {"seeded": {}, "twins": {}, "refactorings": {}, "micro": {}, "failed": [], "inapplicable": []}
     with ThreadPoolExecutor(max_workers=jobs) as ex:
         futs = [(t, ex.submit(run_one, t[2], t[3])) for t in tasks]
-        for t, fu in futs:
+        for n_done, (t, fu) in enumerate(futs, 1):
             kind, name, pf, props = t[:4]
             r = fu.result()
+            if n_done % 50 == 0:
+                print(f"[{n_done}/{len(futs)}]", file=sys.stderr, flush=True)
             if r.get("inapplicable"):
                 res["inapplicable"].append(name)
                 continue
@@ -121,6 +151,16 @@ def battery(only=None, jobs=16, refactorings=True):
                                        "expected": "miss (out of reach)" if exp_miss else "detect"}
                 if detected == exp_miss or rc == 2:
                     res["failed"].append(f"seeded {name}: rc={rc} expected {'miss' if exp_miss else 'detection'}")
+            elif kind == "micro":
+                alarms = {p: v for p, v in r.items() if v["rc"] == 1}
+                errs = sorted(p for p, v in r.items() if v["rc"] == 2)
+                res["micro"][name] = {"alarms": alarms, "undecided": errs, "silent": not alarms and not errs}
+                if alarms and name in MICRO_FALSE_ALARMS:
+                    res["micro"][name]["listed"] = MICRO_FALSE_ALARMS[name]
+                elif alarms:
+                    res["failed"].append(f"micro-edit {name}: VIOLATION on behaviour-preserving code {alarms}")
+                elif errs and name not in MICRO_UNDECIDED:
+                    res["failed"].append(f"micro-edit {name}: exit 2 for {errs} (expected silence)")
             elif kind == "refactoring":
                 alarms = {p: v for p, v in r.items() if v["rc"] == 1}
                 withheld = sorted(p for p, v in r.items() if v["rc"] == 2)
@@ -134,6 +174,8 @@ def battery(only=None, jobs=16, refactorings=True):
                     res["failed"].append(f"twin {name}: {noisy}")
     res["counts"] = {"seeded": len(res["seeded"]), "seeded_detected": sum(v["detected"] for v in res["seeded"].values()),
                      "twins": len(res["twins"]), "twins_silent": sum(v["silent"] for v in res["twins"].values()),
+                     "micro": len(res["micro"]), "micro_silent": sum(v["silent"] for v in res["micro"].values()),
+                     "micro_false_alarm": sum(bool(v["alarms"]) for v in res["micro"].values()),
                      "refactorings": len(res["refactorings"]),
                      "refactorings_no_alarm": sum(not v["alarms"] for v in res["refactorings"].values()),
                      "refactorings_all_checks_exit_0": sum(v["silent"] for v in res["refactorings"].values()),
@@ -153,6 +195,9 @@ if __name__ == "__main__":
         print(f"seeded {k:8s} {'DETECTED' if v['detected'] else 'missed  '} rc={v['rc']} {v['rules']} [{v['expected']}]")
     for k, v in sorted(res["twins"].items()):
         print(f"twin   {k:32s} {'silent' if v['silent'] else 'NOISY ' + json.dumps(v['noisy'])[:200]}")
+    for k, v in sorted(res["micro"].items()):
+        if not v["silent"]:
+            print(f"micro  {k:12s} {'ALARM ' + json.dumps(v['alarms'])[:200] if v['alarms'] else 'exit 2 for ' + ' '.join(v['undecided'])}")
     for k, v in sorted(res["refactorings"].items()):
         print(f"refactoring {k:12s} {'ALARM ' + json.dumps(v['alarms'])[:200] if v['alarms'] else ('silent' if v['silent'] else 'no alarm; verdict withheld (exit 2) for ' + ' '.join(v['withheld']))}")
     print("inapplicable:", res["inapplicable"])
